@@ -244,11 +244,11 @@ func (tf *tagFilter) Init(name, key, value []byte, isNegative, isRegexp bool) er
 
 	if config.GetStoreConfig().EnablePerlRegrep {
 		rcv, err := tf.OpGeminiRegrep()
-		if rcv.reMatch == nil {
-			return nil
-		}
 		if err != nil {
 			return err
+		}
+		if rcv.reMatch == nil {
+			return nil
 		}
 		tf.orSuffixes = append(tf.orSuffixes[:0], rcv.orValues...)
 		tf.reSuffixMatch = rcv.reMatch
@@ -260,11 +260,11 @@ func (tf *tagFilter) Init(name, key, value []byte, isNegative, isRegexp bool) er
 		}
 	} else {
 		rcv, err := tf.InfluxRegrep()
-		if rcv.reMatch == nil {
-			return nil
-		}
 		if err != nil {
 			return err
+		}
+		if rcv.reMatch == nil {
+			return nil
 		}
 		tf.orSuffixes = append(tf.orSuffixes[:0], rcv.orValues...)
 		tf.reSuffixMatch = rcv.reMatch
